@@ -9,6 +9,19 @@ import sites as S
 
 RULES_C03 = [
     # (predicate on (file, func, kind, detail), class, text)
+    (lambda f, q, k, d: k in ("module_state", "global_stmt") and "_global_event_counter" in d, "Benign",
+     "the process-global sort-index counter: a run's deliveries, entity-side log, clock and counters do not depend on its value when the model is built (theorem c03_run_independent_of_counter_offset); Simulation no longer resets it (fix e917571)"),
+    (lambda f, q, k, d: k == "global_stmt" and "_event_tracing_enabled" in d, "Benign",
+     "observer switch of the visual debugger: event tracing does not change deliveries (C04: every script is also run under event tracing against the same model run)"),
+    (lambda f, q, k, d: k == "global_writer_call" and f.startswith("happysimulator/visual/"), "Benign",
+     "visual debugger start-up: outside a library model's run"),
+    (lambda f, q, k, d: k in ("module_state", "global_stmt") and "utils/ids.py" in f, "Benign",
+     "get_id(): process-wide id counter with its lock; no caller left in the package (identifiers never entered (time, type, target) deliveries or statistics)"),
+    (lambda f, q, k, d: k == "module_state" and "Instant.Infinity" in d, "Benign", "immutable singleton (its methods return self / constants)"),
+    (lambda f, q, k, d: k == "module_state" and ("_OPERATORS" in d or "_ALPHA" in d or "DEFAULT_STAGES" in d or "_default_rel" in d), "Benign",
+     "read-only table / stateless default object: never assigned or mutated after import (DEFAULT_STAGES is copied with list() before use; _DefaultRel has a class constant only)"),
+    (lambda f, q, k, d: k in ("shared_default", "module_state", "global_stmt", "global_writer_call")
+        and not f.startswith(("happysimulator/visual/", "happysimulator/mcp/", "happysimulator/ai/")), "Review", "to be classified by reading the code"),
     (lambda f, q, k, d: k == "hash" and "count_min_sketch" in f, "Finding", "C03-cms-builtin-hash"),
     (lambda f, q, k, d: k == "setiter" and q == "RandomEviction.evict", "Finding", "C03-random-eviction-set-order"),
     (lambda f, q, k, d: k == "setiter" and "_dirty_keys" in d, "Finding", "C03-dirty-key-set-order"),
@@ -45,6 +58,19 @@ RULES_C07 = [
     (lambda f, q, k, d: k == "event_time" and "shift_schedule" in f, "Benign", "next_transition_after(self.now) returns a boundary strictly after the current time or None"),
     (lambda f, q, k, d: k == "event_time" and "message_queue" in f and "now.to_seconds() + self._redelivery_delay" in d, "Benign",
      "now := self._clock.now if self._clock else Instant.Epoch read in the same call; redelivery_delay >= 0 (C19 model: redelivery is stamped with the clock at the request plus the delay)"),
+    (lambda f, q, k, d: k == "wait_loop" and d.startswith("while True: yield delay"), "Benign",
+     "hand-written `yield from`: re-yields every delay of an inner generator until it stops (StopIteration ends the loop); each round is one step of the inner operation"),
+    (lambda f, q, k, d: k == "wait_loop" and d.endswith(": yield wakeup"), "Benign",
+     "the waiter parks on a SimFuture resolved by the releasing side (repairs 2d2ff13 of C09): no event at all while blocked"),
+    (lambda f, q, k, d: k == "wait_loop" and "database.py" in f and d.endswith(": yield 0.01"), "Benign",
+     "polls for a free connection every 10 ms of simulated time (a positive literal)"),
+    (lambda f, q, k, d: k == "wait_loop" and "connection_pool.py" in f, "Benign",
+     "poll_interval = min(0.1, timeout / 10) > 0 for a positive timeout; the loop is bounded by elapsed < timeout (C09 pool model)"),
+    (lambda f, q, k, d: k == "wait_loop" and "cpu_scheduler.py" in f, "Benign",
+     "each round runs the task for run_time > 0 (quantum or remaining time) or waits one context switch: task.remaining_s strictly decreases"),
+    (lambda f, q, k, d: k == "wait_loop" and "tcp_connection.py" in f, "Benign",
+     "each round waits one RTT / RTO (positive estimates) and sends at least one segment or backs off: sent strictly increases or the window shrinks to 1"),
+    (lambda f, q, k, d: k == "wait_loop", "Review", "to be classified by reading the code"),
     (lambda f, q, k, d: k == "stale_now", "Review", "to be classified by replay"),
     (lambda f, q, k, d: k == "event_time", "Review", "to be classified by reading the code"),
     (lambda f, q, k, d: k == "spin", "Review", "to be classified by replay"),
